@@ -12,6 +12,7 @@ Vocabulary (Lemmas/NumFmt.lean):
 import NumbersModel.Lemmas.NumFmt
 import NumbersModel.Lemmas.CustomFmt
 import NumbersModel.Lemmas.LimitDen
+import NumbersModel.Lemmas.SciFmt
 import NumbersModel.Gen.Constants
 namespace NumbersModel.Props.C13
 open NumbersModel NumbersModel.Digits NumbersModel.NumFmt
@@ -111,13 +112,34 @@ theorem auto_reads_back (d : Dec) (f : DecFmt) (hp : f.places ≥ AUTO) :
 
 /-! ## scientific -/
 
-/-- The mantissa digits of the scientific format are the value's leading digits rounded to `places+1`
-    significant digits, nearest with ties to even.  (Full statement — the text `d.ddd E±xx` read back is
-    `mantissa · 10^exponent` — is not proved: `_partial`.) -/
-theorem scientific_mantissa_partial (m k : Nat) :
-    Nearest m k (dropHalfEven m k) ∧
-    (k ≠ 0 → 2 * (m % 10 ^ k) = 10 ^ k → dropHalfEven m k % 2 = 0) :=
-  ⟨dropHalfEven_nearest m k, fun hk ht => dropHalfEven_tie m k hk ht⟩
+/-- **scientific notation reads back** — the text `d.ddd E±xx` that `f"{v:.{p}E}"` produces, parsed again (`readSci`: sign,
+    the mantissa digits as one integer `m`, the exponent of its last digit `e − p`), denotes `m · 10^(e − p)` where: for
+    zero `m = 0`; otherwise the mantissa is normalised (`10^p ≤ m < 10^(p+1)`: one non-zero leading digit and exactly `p`
+    decimals); a value with at most `p+1` significant digits is shown exactly; a longer one is its leading `p+1` digits
+    rounded to nearest, ties to even — the carry `9.995 → 1.00E+01` (rounding up to `10^(p+1)`) is renormalised without
+    changing the value. -/
+theorem scientific_mantissa (d : Dec) (p : Nat) :
+    let m := (sciParts d p).1
+    let e := (sciParts d p).2
+    readSci (formatScientific d p) = some (d.neg, m, e - (p : Int)) ∧
+    (d.mant = 0 → m = 0) ∧
+    (d.mant ≠ 0 → 10 ^ p ≤ m ∧ m < 10 ^ (p + 1)) ∧
+    (d.mant ≠ 0 → numDigits d.mant ≤ p + 1 → SameValue m (e - (p : Int)) d.mant d.exp) ∧
+    (d.mant ≠ 0 → p + 1 < numDigits d.mant →
+      let k := numDigits d.mant - (p + 1)
+      SameValue m (e - (p : Int)) (dropHalfEven d.mant k) (d.exp + (k : Int)) ∧
+      Nearest d.mant k (dropHalfEven d.mant k) ∧
+      (2 * (d.mant % 10 ^ k) = 10 ^ k → dropHalfEven d.mant k % 2 = 0)) := by
+  intro m e
+  obtain ⟨h0, hnorm, hexact, hround⟩ := sciParts_spec d p
+  have hlt : m < 10 ^ (p + 1) := by
+    by_cases hm : d.mant = 0
+    · have : m = 0 := by show (sciParts d p).1 = 0; rw [h0 hm]
+      rw [this]; exact Nat.pow_pos (by omega)
+    · exact (hnorm hm).2
+  refine ⟨?_, fun hm => by show (sciParts d p).1 = 0; rw [h0 hm], hnorm, hexact, fun hm hgt => ?_⟩
+  · rw [formatScientific_eq]; exact readSci_sciText d.neg p m e hlt
+  · exact ⟨hround hm hgt, dropHalfEven_nearest _ _, fun ht => dropHalfEven_tie _ _ (by omega) ht⟩
 
 /-! ## number bases -/
 
@@ -242,6 +264,8 @@ example : fractionParts (-2) (-1) 2 = "-2 1/2".toList ∧ fractionParts 2 4 4 = 
 example : fractionDigits 1 7074029114692207 2251799813685248 = .ok "3 1/7".toList := by decide
 example : formatScientific ⟨false, 2675, -3⟩ 2 = "2.68E+00".toList ∧ formatScientific ⟨false, 25, -1⟩ 0 = "2E+00".toList := by
   decide
+example : formatScientific ⟨true, 9995, -3⟩ 2 = "-1.00E+01".toList ∧ readSci "-1.00E+01".toList = some (true, 100, -1) ∧
+    formatScientific ⟨false, 0, 0⟩ 3 = "0.000E+00".toList ∧ readSci "1.5E-07".toList = some (false, 15, -8) := by decide
 
 /-! ## custom number patterns (`_decode_number_format`, `_expand_quotes`, `Cell._custom_format`)
 
@@ -297,8 +321,15 @@ theorem custom_digits_read_back (zeros : List Nat) (a : Archive) (v v100 : Float
     · rw [h2]; exact (dropHalfUp_nearest _ _).1
     · rw [h2]; exact (dropHalfUp_nearest _ _).2 h3
 
-/-- the sign: a minus appears in the number text exactly … no digit is a sign: every character of the number text is
-    a digit, a grouping comma, the minus sign, a padding space or the decimal point (so none is a quote). -/
+/-- **custom sign** — the number text holds one minus sign exactly when the value is negative and is not displayed as
+    zero (its rounding to the decimals the pattern shows is not zero), and none otherwise: `-0.23` under `#.#` keeps its
+    sign, `-0.004` under `0.00` shows none. -/
+theorem custom_sign (a : Archive) (ip dp : Text) (value : Dec) (body : Text) (h : numberBody a ip dp value = .ok body) :
+    body.filter (· == '-') = if value.isNeg = true ∧ scaleTo value dp.length ≠ 0 then ['-'] else [] :=
+  numberBody_sign a ip dp value body h
+
+/-- every character of the number text is a digit, a grouping comma, the minus sign, a padding space or the decimal
+    point (so none is a quote), and the number text is never empty. -/
 theorem custom_number_text_alphabet (a : Archive) (ip dp : Text) (value : Dec) (body : Text)
     (h : numberBody a ip dp value = .ok body) :
     body ≠ [] ∧ ∀ c ∈ body, isDigit c = true ∨ c = ',' ∨ c = '-' ∨ c = ' ' ∨ c = '.' := by
@@ -410,6 +441,7 @@ private def fv (neg : Bool) (m : Nat) (e : Int) : FloatVal := ⟨⟨neg, m, e⟩
 example : decodeNumberFormat [48] (arch "0,000.00" true 4 2) (fv false 9995 (-4)) (fv false 9995 (-2)) = .ok "0,001.00".toList := by
   decide
 example : decodeNumberFormat [48] (arch "#.##" false 0 0) (fv true 23 (-2)) (fv true 23 0) = .ok "-0.23".toList := by decide
+example : decodeNumberFormat [48] (arch "0.00" false 1 2) (fv true 4 (-3)) (fv true 4 (-1)) = .ok "0.00".toList := by decide
 example : decodeNumberFormat [48] (arch "'No. '0' of 10'" false 1 0) (fv false 25 (-1)) (fv false 250 0) = .ok "No. 3 of 10".toList := by
   decide
 example : decodeNumberFormat [48] (arch "00.0%" false 2 1) (fv false 285 (-3)) (fv false 28499999999999996 (-15)) =
